@@ -385,7 +385,12 @@ def install_transitions(M):
     def p_add_node(self, node, result, OLD):
         return mk(lambda node: ("add_node", node))(self, OLD, result, node=node)
 
+    def _reiterable(x):
+        return isinstance(x, (list, tuple, set, frozenset, dict))
+
     def p_add_nodes(self, nodes, result, OLD):
+        if not _reiterable(nodes):  # a one-shot iterable cannot be read again here: driver-level check
+            return True
         return mk(lambda nodes: ("add_nodes", list(nodes)))(self, OLD, result, nodes=nodes)
 
     def p_add_link(self, node_up, link, node_down, result, OLD):
@@ -393,6 +398,8 @@ def install_transitions(M):
             self, OLD, result, node_up=node_up, link=link, node_down=node_down)
 
     def p_add_links(self, links, result, OLD):
+        if not _reiterable(links):
+            return True
         return mk(lambda links: ("add_links", list(links)))(self, OLD, result, links=links)
 
     def p_add_origin(self, origin, node, result, OLD):
